@@ -427,7 +427,7 @@ fn nal_strategy(hevc: bool) -> impl Strategy<Value = NalGene> {
     } else {
         prop_oneof![3 => Just(7u8), 3 => Just(8u8), 1 => Just(6u8), 1 => Just(9u8), 2 => Just(5u8), 1 => Just(1u8), 1 => 1u8..32].boxed()
     };
-    (typ, prop_oneof![6 => 0u16..40, 2 => 40u16..400, 1 => 400u16..60000], 0u8..4, any::<bool>(), any::<u8>())
+    (typ, prop_oneof![6 => 0u16..40, 2 => 40u16..400, 1 => 250u16..262, 1 => 400u16..60000], 0u8..4, any::<bool>(), any::<u8>())
         .prop_map(|(typ, len, fill, sc4, aux)| NalGene { typ, len, fill, sc4, aux })
 }
 
@@ -594,7 +594,7 @@ pub fn eval_init(c: &InitCase) -> Outcome {
 }
 
 fn pset_strategy() -> impl Strategy<Value = Vec<u8>> {
-    prop_oneof![6 => vec(any::<u8>(), 0..40), 2 => vec(any::<u8>(), 40..600), 1 => vec(any::<u8>(), 60000..65536)]
+    prop_oneof![6 => vec(any::<u8>(), 0..40), 2 => vec(any::<u8>(), 40..600), 1 => vec(any::<u8>(), 250..262), 1 => vec(any::<u8>(), 60000..65536)]
 }
 
 fn init_strategy() -> impl Strategy<Value = InitCase> {
